@@ -110,14 +110,8 @@ pub proof fn lemma_next_nt_frame(t: Seq<LuaTokenData>, u: Seq<LuaTokenData>, i: 
 /// emits them; the grammar writes them with `set_current_token_kind` immediately before the `bump` that consumes the token.
 pub open spec fn nosoft(p: &LuaParser) -> bool { nosoft_at(p.tokens@, p.token_index as int) }
 
-/// (the quantifier is triggered by the dedicated predicate `tok_soft` only, so it is not instantiated for every `tokens@[j]` term of a
-/// long function body; `LuaParser::set_current_token_kind` ensures `tok_soft` is unchanged at every other position — BASE_PATCH —,
-/// `bump` keeps `tokens@`, so preservation of `nosoft` needs no proof hints)
-pub open spec fn nosoft_at(t: Seq<LuaTokenData>, i: int) -> bool {
-    forall|j: int| i <= j < t.len() ==> !#[trigger] tok_soft(t, j)
-}
-
-pub open spec fn tok_soft(t: Seq<LuaTokenData>, j: int) -> bool { t[j].kind is TkContinue || t[j].kind is TkConst }
+// `soft_kind`, `no_soft_kinds`, `nosoft_at`, `tok_soft`: shared with units c01_reader / c01_compose (same text)
+//@@include c02_grammar/nosoft_iface.rs
 
 pub proof fn lemma_nosoft_mono(t: Seq<LuaTokenData>, i: int, j: int)
     requires
